@@ -27,6 +27,7 @@ import (
 	"reflect"
 	"strconv"
 	"strings"
+	"sync/atomic"
 	"time"
 
 	"github.com/go-sql-driver/mysql"
@@ -145,7 +146,8 @@ func normArg(v interface{}) (interface{}, error) {
 	case string:
 		return x, nil
 	case time.Time:
-		return x.UTC().Truncate(time.Microsecond), nil
+		// the driver sends the wall clock the value has in the connection's location (DSN parameter loc)
+		return relabel(x.In(Location()), time.UTC).Truncate(time.Microsecond), nil
 	case uint64:
 		if x <= math.MaxInt64 {
 			return int64(x), nil
@@ -743,4 +745,30 @@ func displayPart(v interface{}) string {
 		return fmtTime(t, TDateTime, 0)
 	}
 	return textOf(v)
+}
+
+// ---- the connection's location (go-sql-driver's DSN parameter loc, UTC by default): a DATETIME has no zone, the
+// driver reads its wall clock as a time in that location and writes a time.Time as its wall clock there
+
+var wireLocation atomic.Value
+
+// SetLocation sets the location temporal values are handed out in (nil: UTC)
+func SetLocation(loc *time.Location) {
+	if loc == nil {
+		loc = time.UTC
+	}
+	wireLocation.Store(loc)
+}
+
+// Location is the location temporal values are handed out in
+func Location() *time.Location {
+	if loc, ok := wireLocation.Load().(*time.Location); ok {
+		return loc
+	}
+	return time.UTC
+}
+
+// relabel keeps the wall clock of t and reads it in loc
+func relabel(t time.Time, loc *time.Location) time.Time {
+	return time.Date(t.Year(), t.Month(), t.Day(), t.Hour(), t.Minute(), t.Second(), t.Nanosecond(), loc)
 }
